@@ -436,6 +436,55 @@ let hybrid_monitors (capmb : n) node ops (obs : obs list) : string list =
     prev := ob) (List.combine ops obs);
   List.rev !fails
 
+(* ---------------- recorded concurrent histories: exhaustive search for a linearization *)
+let lin_parse_plan plan : (int list * v) list =
+  List.concat (List.map (fun t -> List.filter_map (fun p -> match split ',' p with
+    | [id; vl] -> Some (Util.bytes_of_hex id, parse_val vl) | _ -> None) (split ';' t)) (split '/' plan))
+let lin_parse_events ev n : (int * int * string) list option =
+  let evs = List.map (fun e -> match split '.' e with
+    | [i; r; res] -> (match int_of_string_opt i, int_of_string_opt r with Some i, Some r -> Some (i, r, res) | _ -> None)
+    | _ -> None) (split ';' ev) in
+  if List.mem None evs || List.length evs <> n then None
+  else Some (List.map (function Some x -> x | None -> assert false) evs)
+(* an order of the puts that respects real time (responded-before-invoked) and under which the extracted sequential
+   model gives every put its observed result and ends in the observed final state; returns (found, budget exceeded,
+   number of puts, search nodes) *)
+let lin_search (capmb : n) node puts evs fin : bool * bool * int * int =
+  let ops = Array.of_list (List.map2 (fun (id, x) (i, r, res) -> (id, x, i, r, res)) puts evs) in
+  let n = Array.length ops in
+  let ids = List.rev (List.fold_left (fun acc (id, _) -> if List.mem id acc then acc else id :: acc) [] puts) in
+  let y0 : v sys = init capmb k_contentDeletionPPM (b node) in
+  let nodes = ref 0 in
+  let rec search (y : v sys) (donemask : int) (cnt_done : int) : bool =
+    incr nodes;
+    if cnt_done = n then ("ok " ^ observe "-" y ids) = fin
+    else if !nodes > 2000000 then false
+    else begin
+      let found = ref false in
+      for a = 0 to n - 1 do
+        if not !found && donemask land (1 lsl a) = 0 then begin
+          let (id, x, inv, _, res) = ops.(a) in
+          let ready = ref true in
+          for c = 0 to n - 1 do
+            if c <> a && donemask land (1 lsl c) = 0 then begin
+              let (_, _, _, rc, _) = ops.(c) in if rc < inv then ready := false
+            end
+          done;
+          if !ready then begin
+            let r = match put vlen le_dec y.mem (b id) x with
+              | Ok ((_, Stored), _) -> "ok" | Ok ((_, Refused), _) -> "refused" | _ -> "err" in
+            if r = res then
+              match step vlen vhead8 le_dec y (OPut (b id, x)) with
+              | Ok y' -> if search y' (donemask lor (1 lsl a)) (cnt_done + 1) then found := true
+              | _ -> ()
+          end
+        end
+      done;
+      !found
+    end in
+  let lin = search y0 0 0 in
+  (lin, !nodes > 2000000, n, !nodes)
+
 (* ---------------- handler *)
 let handle fields impl : string option * string list =
   match fields with
@@ -576,70 +625,62 @@ let handle fields impl : string option * string list =
          | _ -> ["fs-crash-observation-shape variant=" ^ variant] in
        (Some m, mons))
   | ["lin"; capmb; node; plan] ->
-    (* a recorded concurrent history of the real store: exhaustive search for a linearization - an order of the puts
-       that respects real time (responded-before-invoked) and under which the extracted sequential model gives every
-       put its observed result and ends in the observed final state *)
     let capmb = (match n_of_dec_opt capmb with Some c -> c | None -> zero) and node = Util.bytes_of_hex node in
-    let threads = List.map (fun t -> List.filter_map (fun p -> match split ',' p with
-        | [id; vl] -> Some (Util.bytes_of_hex id, parse_val vl) | _ -> None) (split ';' t)) (split '/' plan) in
-    let puts = List.concat threads in
+    let puts = lin_parse_plan plan in
     let parsed = match split ' ' impl with
-      | ["ok"; ev; fin] ->
-        let evs = List.map (fun e -> match split '.' e with
-          | [i; r; res] -> (match int_of_string_opt i, int_of_string_opt r with Some i, Some r -> Some (i, r, res) | _ -> None)
-          | _ -> None) (split ';' ev) in
-        if List.mem None evs || List.length evs <> List.length puts then None
-        else Some (List.map (function Some x -> x | None -> assert false) evs, "ok " ^ fin)
+      | ["ok"; ev; fin] -> (match lin_parse_events ev (List.length puts) with Some evs -> Some (evs, "ok " ^ fin) | None -> None)
       | _ -> None in
     (match parsed with
      | None -> (Some "ok <events> <final>", ["concurrent-history-run-failed-or-unparsable " ^ (if String.length impl > 100 then String.sub impl 0 100 else impl)])
      | Some (evs, fin) ->
-       let ops = Array.of_list (List.map2 (fun (id, x) (i, r, res) -> (id, x, i, r, res)) puts evs) in
-       let n = Array.length ops in
-       let ids = List.rev (List.fold_left (fun acc (id, _) -> if List.mem id acc then acc else id :: acc) [] puts) in
-       let y0 : v sys = init capmb k_contentDeletionPPM (b node) in
-       let nodes = ref 0 in
-       let rec search (y : v sys) (donemask : int) (cnt_done : int) : bool =
-         incr nodes;
-         if cnt_done = n then ("ok " ^ observe "-" y ids) = fin
-         else if !nodes > 2000000 then false
-         else begin
-           let found = ref false in
-           for a = 0 to n - 1 do
-             if not !found && donemask land (1 lsl a) = 0 then begin
-               let (id, x, inv, _, res) = ops.(a) in
-               (* every put that responded before this one was invoked must already be placed *)
-               let ready = ref true in
-               for c = 0 to n - 1 do
-                 if c <> a && donemask land (1 lsl c) = 0 then begin
-                   let (_, _, _, rc, _) = ops.(c) in if rc < inv then ready := false
-                 end
-               done;
-               if !ready then begin
-                 let r = match put vlen le_dec y.mem (b id) x with
-                   | Ok ((_, Stored), _) -> "ok" | Ok ((_, Refused), _) -> "refused" | _ -> "err" in
-                 if r = res then
-                   match step vlen vhead8 le_dec y (OPut (b id, x)) with
-                   | Ok y' -> if search y' (donemask lor (1 lsl a)) (cnt_done + 1) then found := true
-                   | _ -> ()
-               end
-             end
-           done;
-           !found
-         end in
-       let lin = search y0 0 0 in
-       let budget = !nodes > 2000000 in
+       let (lin, budget, n, nodes) = lin_search capmb node puts evs fin in
        let m = if lin then impl else if budget then "linearization-search-budget-exceeded" else "no-linearization-of-this-history" in
        let cap = capmb *: k_bytesPerMB in
        let small = List.for_all (fun (id, x) -> n_ (List.length id + vlen_i x) <=: (capmb *: k_contentDeletionPPM)) puts in
        let mons =
-         (if not lin && not budget then [Printf.sprintf "concurrent-history-not-linearizable puts=%d searched=%d" n !nodes] else []) @
+         (if not lin && not budget then [Printf.sprintf "concurrent-history-not-linearizable puts=%d searched=%d" n nodes] else []) @
          (match parse_obs fin with
           | Some [ob] ->
             (if has_rec ob && ob.held >: rec_n ob then [Printf.sprintf "concurrent-puts-held-exceeds-size-record held=%s rec=%s" (sd ob.held) ob.recs] else []) @
             (if ob.held >: ob.cnt then [Printf.sprintf "concurrent-puts-held-exceeds-counter held=%s counter=%s" (sd ob.held) (sd ob.cnt)] else []) @
             (if small && ob.held >: cap then [Printf.sprintf "held-exceeds-capacity-after-quiescence held=%s cap=%s" (sd ob.held) (sd cap)] else [])
           | _ -> ["concurrent-history-final-observation-unparsable"]) in
+       (Some m, mons))
+  | ["lin06"; capmb; node; plan; _gate] ->
+    (* C06 over a recorded concurrent history: linearizable w.r.t. the sequential model, every retained item within
+       the advertised radius at quiescence, and the sampled radius never grows.  Ids 00..00 xx against node 0: the
+       little-endian reading of the code orders this family exactly as the key order (independent of the known finding). *)
+    let capmb = (match n_of_dec_opt capmb with Some c -> c | None -> zero) and node = Util.bytes_of_hex node in
+    let puts = lin_parse_plan plan in
+    let parsed = match split ' ' impl with
+      | ["ok"; ev; fin; mid; samples] ->
+        (match lin_parse_events ev (List.length puts) with
+         | Some evs when List.for_all is_hex (split '>' samples) -> Some (evs, "ok " ^ fin, "ok " ^ mid, List.map n_hex (split '>' samples))
+         | _ -> None)
+      | _ -> None in
+    (match parsed with
+     | None -> (Some "ok <events> <final> <mid> <radius samples>", ["concurrent-radius-history-run-failed-or-unparsable " ^ (if String.length impl > 100 then String.sub impl 0 100 else impl)])
+     | Some (evs, fin, mid, samples) ->
+       let (lin, budget, n, nodes) = lin_search capmb node puts evs fin in
+       let m = if lin then impl else if budget then "linearization-search-budget-exceeded" else "no-linearization-of-this-history" in
+       let ids = List.rev (List.fold_left (fun acc (id, _) -> if List.mem id acc then acc else id :: acc) [] puts) in
+       let family = List.for_all (fun id -> valid_id node id && (match List.rev (ub (key_of node id)) with _ :: r -> List.for_all (fun x -> x = 0) r | [] -> false)) ids in
+       let mons =
+         (if not lin && not budget then [Printf.sprintf "concurrent-history-not-linearizable puts=%d searched=%d" n nodes] else []) @
+         (let rec grew = function
+            | a :: (c :: _ as t) -> if N.ltb a c then Some (a, c) else grew t
+            | _ -> None in
+          match grew samples with
+          | Some (a, c) -> [Printf.sprintf "radius-grew %s->%s" (hexn a) (hexn c)]
+          | None -> []) @
+         (let within what o = match parse_obs o with
+            | Some [ob] when family ->
+              List.concat (List.mapi (fun j id ->
+                if List.nth ob.gets j <> "nf" && not (N.leb (le_dec (key_of node id)) ob.radius)
+                then [Printf.sprintf "retained-item-beyond-radius-after-concurrent-puts at=%s id=%s radius=%s" what (Util.hex_of_bytes id) ob.rads] else []) ids)
+            | Some [_] -> []
+            | _ -> ["concurrent-history-observation-unparsable at=" ^ what] in
+          within "quiescence-after-race" mid @ within "end" fin) in
        (Some m, mons))
   | ["xor"; id; node] ->
     let m = match xor_key (b (Util.bytes_of_hex id)) (b (Util.bytes_of_hex node)) with
